@@ -15,6 +15,12 @@ func main() { Main("c01", run) }
 
 func run(seed uint64, n int, tier string, outDir string) []*Stats {
 	r := NewRng(seed)
+	if os.Getenv("C01_ONLY") == "annexb" { // debugging aid: only the Annex B stream
+		sta := NewStats("c01-annexb", seed)
+		glueAnnexB(r, sta, n)
+		sta.Finish("debug")
+		return []*Stats{sta}
+	}
 	cf := NewCoqFile("From V Require Import Common.Base C01.Utf C01.Quote C01.SpecLiteral C01.Num C01.SpecNumeric C01.Harness.")
 	extra := ""
 
@@ -34,7 +40,11 @@ func run(seed uint64, n int, tier string, outDir string) []*Stats {
 
 	sth := NewStats("c01-hazards", seed)
 	glueNodeLiterals(r, sth, n)
-	sth.Finish("fixed must-pass corpus, identical for every seed: token-gluing (numbers before dots, + +, - --, a-- > b, division before a regular expression), precedence, ASI, optional chains, new/call, arrow bodies, for-init `in`, directives, identifiers and property keys with non-ASCII and escapes, regexp, bigint, template and tagged-template raw strings, Annex B block functions, each x {pretty, minify-whitespace} x {platform browser, node}, plus one seeded option set (charset, line-limit, format) per program; input and output executed in node and probe logs compared, every difference re-run once; programs that replay a recorded known finding run last; distinct_nontrivial = distinct (program, options)")
+	sth.Finish("fixed must-pass corpus, identical for every seed: token-gluing (numbers before dots, + +, - --, a-- > b, division before a regular expression), precedence, ASI, optional chains, new/call, arrow bodies, for-init `in`, directives, identifiers and property keys with non-ASCII and escapes, regexp, bigint, template and tagged-template raw strings, Annex B block functions, each x {pretty, minify-whitespace} x {platform browser, node}, plus one seeded option set (charset, line-limit, format) per program; input and output executed in node and probe logs compared, every difference re-run once; programs that replay a recorded known finding run last and once; distinct_nontrivial = distinct (program, options)")
+
+	sta := NewStats("c01-annexb", seed)
+	glueAnnexB(r, sta, n/2)
+	sta.Finish("generated sloppy-mode block-level function programs (hlib/jsgen_c01.go, ECMA-262 Annex B.3.3: abrupt exit / outer-closure read / write before the declaration position; plain, if, loop, switch, try and labelled blocks; sibling redeclaration; parameter-name and outer-let clashes; use before the block runs) through api.Transform, executed in node; a difference is accepted only as one of the three recorded deviations, each recognised exactly: output = natively executed declaration-first variant (assignment at block entry), output = natively executed variant with the clashing parameter turned into a var (hoisted over a parameter name), ReferenceError from a let placed in a case clause that is not entered; distinct_nontrivial = distinct programs with something observable before the declaration or a name clash")
 
 	// 2. behaviour through the public API (node oracle)
 	st := NewStats("c01", seed)
@@ -43,7 +53,7 @@ func run(seed uint64, n int, tier string, outDir string) []*Stats {
 	if err := os.WriteFile(filepath.Join(outDir, "c01_cases.v"), []byte(cf.String()+extra), 0o644); err != nil {
 		panic(err)
 	}
-	return []*Stats{sts, stn, stg, sth, st}
+	return []*Stats{sts, stn, stg, sth, sta, st}
 }
 
 type tcase struct {
@@ -135,7 +145,7 @@ func glueBehaviour(r *Rng, st *Stats, n int) {
 	}
 }
 
-var hoistRe = regexp.MustCompile(`var ([A-Za-z_$][A-Za-z0-9_$]*) ?= ?([A-Za-z_$][A-Za-z0-9_$]*);`)
+var hoistRe = regexp.MustCompile(`var ([A-Za-z_$][A-Za-z0-9_$]*) ?= ?([A-Za-z_$][A-Za-z0-9_$]*)[;}\n]`)
 
 // esbuild rewrites a sloppy-mode block-level `function f(){}` into
 // `let f2 = function(){}; var f = f2;` at the start of the block
